@@ -88,7 +88,7 @@ fn stub_random_state() -> std::hash::RandomState {
 // ---- contract stubs of std::collections::HashSet<u64> (assumed contract on the dependency: it implements a finite set) ----
 // preliminary_verify uses exactly one set (unique_indices) and only new / insert / len. Executing hashbrown symbolically
 // (SipHash + SIMD group probing) does not finish; the set's contents are kept in a ghost array instead.
-const SET_CAP: usize = 8;
+const SET_CAP: usize = 4;
 static mut SET: [u64; SET_CAP] = [0; SET_CAP];
 static mut SET_N: usize = 0;
 
@@ -254,56 +254,71 @@ fn check_verify(n: usize, c0: usize, c1: usize) {
 }
 
 c01_stubs! {
-    #[kani::unwind(11)]
+    #[kani::unwind(6)]
     fn c01_preliminary_verify_n0_0_0() {
         check_preliminary_verify(0, 0, 0);
     }
 }
 c01_stubs! {
-    #[kani::unwind(11)]
+    #[kani::unwind(6)]
     fn c01_preliminary_verify_n1_1_0() {
         check_preliminary_verify(1, 1, 0);
     }
 }
 c01_stubs! {
-    #[kani::unwind(11)]
+    #[kani::unwind(6)]
     fn c01_preliminary_verify_n1_2_0() {
         check_preliminary_verify(1, 2, 0);
     }
 }
 c01_stubs! {
-    #[kani::unwind(11)]
+    #[kani::unwind(6)]
     fn c01_preliminary_verify_n2_1_1() {
         check_preliminary_verify(2, 1, 1);
     }
 }
 c01_stubs! {
-    #[kani::unwind(11)]
+    #[kani::unwind(6)]
     fn c01_preliminary_verify_n2_2_1() {
         check_preliminary_verify(2, 2, 1);
     }
 }
 c01_stubs! {
-    #[kani::unwind(11)]
+    #[kani::unwind(6)]
     fn c01_preliminary_verify_n2_2_2() {
         check_preliminary_verify(2, 2, 2);
     }
 }
 c01_stubs! {
-    #[kani::unwind(11)]
+    #[kani::unwind(6)]
     fn c01_verify_n1_1_0() {
         check_verify(1, 1, 0);
     }
 }
 c01_stubs! {
-    #[kani::unwind(11)]
+    #[kani::unwind(6)]
     fn c01_verify_n2_1_1() {
         check_verify(2, 1, 1);
     }
 }
 c01_stubs! {
-    #[kani::unwind(11)]
+    #[kani::unwind(6)]
     fn c01_verify_n2_2_1() {
         check_verify(2, 2, 1);
+    }
+}
+
+/// contract used by the Verus unit preliminary_verify for the iterator expressions of collect_signatures_verification_keys:
+/// the j-th returned pair is (sigma_j, committed key_j), in signature order
+#[kani::proof]
+#[kani::unwind(4)]
+fn c01_collect_signatures_verification_keys_in_order() {
+    let (proof, s) = any_proof(2, 1, 1);
+    let (sigs, vks) = proof.collect_signatures_verification_keys();
+    assert!(sigs.len() == s.n && vks.len() == s.n, "C01 one (signature, key) pair per contained signature");
+    let mut j = 0;
+    while j < 2 {
+        assert!(sig_tag(&sigs[j]) == 10 + j as u8 && vk_tag(&vks[j]) == 20 + j as u8, "C01 (signature, key) pairs returned in signature order");
+        j += 1;
     }
 }
